@@ -166,13 +166,52 @@ func memberOfKillList(mc *ssa.MakeClosure, v ssa.Value) bool {
 				return
 			}
 			n++
-			if !taskIdentity(mu.Key) || !elemOfKillList(mu.Key) {
+			if !(taskIdentity(mu.Key) && elemOfKillList(mu.Key)) && !elemOfKillListIds(mu.Key) {
 				okAll = false
 			}
 		})
 		return n > 0 && okAll
 	}
 	return false
+}
+
+// elemOfKillListIds: v is an element of the id list of the kill list: kill.GetTaskIds()[i].
+func elemOfKillListIds(v ssa.Value) bool {
+	seen := map[ssa.Value]bool{}
+	var walk func(v ssa.Value) bool
+	walk = func(v ssa.Value) bool {
+		if v == nil || seen[v] {
+			return false
+		}
+		seen[v] = true
+		switch x := v.(type) {
+		case *ssa.UnOp:
+			if al, ok := x.X.(*ssa.Alloc); ok && al.Referrers() != nil {
+				for _, r := range *al.Referrers() {
+					if st, ok := r.(*ssa.Store); ok && st.Addr == ssa.Value(al) && walk(st.Val) {
+						return true
+					}
+				}
+				return false
+			}
+			return walk(x.X)
+		case *ssa.IndexAddr:
+			return walk(x.X)
+		case *ssa.Phi:
+			for _, e := range x.Edges {
+				if !walk(e) {
+					return false
+				}
+			}
+			return len(x.Edges) > 0
+		case *ssa.Call:
+			if an.CalleeName(&x.Call) == "(core/task.Tasks).GetTaskIds" {
+				return fromTasksParam(x.Call.Args[0], map[ssa.Value]bool{})
+			}
+		}
+		return false
+	}
+	return walk(v)
 }
 
 // elemOfKillList: identity value v is read from an element of a slice deriving from the Tasks parameter.
